@@ -332,13 +332,12 @@ theorem takeReq_rem (ks : List Bytes) (vars : Vars) (k : String) (v : Bytes) (hk
   unfold takeReq
   rw [mapTake_rem ks vars _ hk, hv]
 
-def stripPlus (s : Bytes) : Bytes := match s with | 43 :: r => r | s => s
 def puCore (bits : Nat) (ds : Bytes) : Option Nat :=
   if ds.isEmpty || !ds.all isDigit then none
   else if digitsVal ds < 2 ^ bits then some (digitsVal ds) else none
 
 theorem parseUnsigned_eq (bits : Nat) (s : Bytes) : parseUnsigned bits s = puCore bits (stripPlus s) := by
-  unfold parseUnsigned stripPlus puCore
+  unfold parseUnsigned puCore
   rfl
 
 theorem puCore_mono (b b' : Nat) (hb : b ≤ b') (ds : Bytes) (n : Nat) (h : puCore b ds = some n) :
